@@ -131,6 +131,11 @@ pub fn run(
                     Err(_) => continue,
                 };
             let candidate_path = root_route.into_iter().chain(spur_route).collect_vec();
+            // only the edge after the root path is cut, so the spur path may come back through
+            // a vertex of the root path: Yen's paths are loopless
+            if bidirectional_ops::route_contains_loop(&candidate_path, si)? {
+                continue;
+            }
             let candidate_test_path: &Vec<&EdgeTraversal> = &candidate_path.iter().collect_vec();
             // replace best candidate if current candidate is sufficiently dissimilar to every
             // accepted path and improves on cost
